@@ -186,3 +186,55 @@ def run(rec):
             if len(errs) == 2 and errs[1] > 1e-13:
                 order = np.log2(errs[0] / errs[1])
                 rec.check(order > power - 0.4, f'make_U_{approx}:error-order', f'errors {errs}: observed order {order:.2f} < documented {power}', {'sites': fname})
+    infinite_mpos(rec, rng, quick)
+
+
+def infinite_mpos(rec, rng, quick):
+    """infinite MPOs (compared on a window): equality and Hermiticity tests with the default window and with an explicit
+    `max_range`, sum, dagger; the long-range term that distinguishes two operators has a range within the window asked for"""
+    from tenpy.networks.mpo import MPOGraph
+    from tenpy.networks.terms import TermList
+    from tenpy.networks.site import SpinHalfSite
+    s = SpinHalfSite('Sz', sort_charge=True)
+    for L in ((2,) if quick else (1, 2, 3)):
+        sites = [s] * L
+        base_terms = [[('Sz', i), ('Sz', i + 1)] for i in range(L)] + [[('Sp', i), ('Sm', i + 1)] for i in range(L)] + [[('Sm', i), ('Sp', i + 1)] for i in range(L)]
+        base_str = [1.] * L + [0.5] * (2 * L)
+        def build(terms, strengths):
+            return MPOGraph.from_term_list(TermList(terms, strengths), sites, 'infinite').build_MPO()
+        H = build(base_terms, base_str)
+        Hrev = build(base_terms[::-1], base_str[::-1])
+        # (ranges inside and beyond the default window L + 2 * max_range of the short-ranged operator)
+        for r in ((L + 3,) if quick else (2, 3, L + 3, L + 5)):
+            # Hermitian long-range perturbation and a non-Hermitian one, both of range r
+            Hl = build(base_terms + [[('Sz', 0), ('Sz', r)]], base_str + [0.3])
+            Hn = build(base_terms + [[('Sp', 0), ('Sm', r)]], base_str + [0.3])
+            inp = {'L': L, 'range_of_extra_term': r}
+            rec.begin(f'C11 infinite MPO {inp}')
+            rec.case(('infinite', L, r), True, sample=inp if r == L + 3 else None)
+            for mr in (None, r, r + 2):
+                tag = f'max_range={"default" if mr is None else "explicit"}'
+                kw = {} if mr is None else {'max_range': mr}
+                checks = [('is_equal(H, H rebuilt)', lambda: H.is_equal(Hrev, **kw), True),
+                          ('is_equal(H_short, H_long)', lambda: H.is_equal(Hl, **kw), False if mr is not None else None),
+                          ('is_equal(H_long, H_short)', lambda: Hl.is_equal(H, **kw), False),
+                          ('is_hermitian(H)', lambda: H.is_hermitian(**kw), True),
+                          ('is_hermitian(H + long Hermitian term)', lambda: Hl.is_hermitian(**kw), True),
+                          ('is_hermitian(H + long non-Hermitian term)', lambda: Hn.is_hermitian(**kw), False)]
+                for name, fn, want in checks:
+                    if want is None:
+                        continue     # (the default window of the shorter-ranged operator need not reach the extra term: documented)
+                    ok, got = rec.guarded(f'infinite:{name}:exception', fn, dict(inp, max_range=mr))
+                    if ok:
+                        rec.check(bool(got) == want, f'infinite:{name}[{tag}]', f'got {bool(got)}, the operators {"are" if want else "are not"} '
+                                  f'equal/Hermitian within the window', dict(inp, max_range=mr))
+            # sum and dagger
+            ok, S2 = rec.guarded('infinite:__add__:exception', lambda: H + Hl, inp)
+            if ok:
+                ref = build(base_terms + base_terms + [[('Sz', 0), ('Sz', r)]], base_str + base_str + [0.3])
+                rec.check(bool(S2.is_equal(ref, max_range=r + 1)) and bool(ref.is_equal(S2, max_range=r + 1)), 'infinite:__add__:is_equal(sum, rebuilt)', '', inp)
+                rec.check(S2.max_range is None or S2.max_range >= r, 'infinite:__add__:max_range', f'{S2.max_range} < {r}', inp)
+            ok, Hd_ = rec.guarded('infinite:dagger:exception', lambda: Hn.dagger(), inp)
+            if ok:
+                ref = build(base_terms + [[('Sm', 0), ('Sp', r)]], base_str + [0.3])
+                rec.check(bool(Hd_.is_equal(ref, max_range=r + 1)), 'infinite:dagger:is_equal(dagger, rebuilt)', '', inp)
